@@ -27,6 +27,9 @@ BUILTIN = {  # Rust type -> scalar type id of the Lean model (`Ty.sc`)
 RECURSIVE = {"Variant": "variant", "DataValue": "dataValue", "DiagnosticInfo": "diagInfo"}
 
 
+WIDTH = {"u8": 1, "i8": 1, "i16": 2, "u16": 2, "i32": 4, "u32": 4}
+
+
 class CannotRead(Exception):
     pass
 
@@ -138,8 +141,14 @@ def parse_enums(path):
                 raise CannotRead("enum fallback variant of " + name)
             fallback = int(fm.group(1))
         eb = fn_body(impl, "encode")
-        if not re.fullmatch(r"write_(u8|i16|i32|u32)\(stream, \*self as (u8|i16|i32|u32)\)", eb.strip()):
+        wm = re.fullmatch(r"write_(u8|i16|i32|u32)\(stream, \*self as (u8|i16|i32|u32)\)", eb.strip())
+        if not wm:
             raise CannotRead("enum encode of " + name)
+        # the model takes the wire width from byte_len: read, write, cast and byte_len must all agree
+        if not (rd.group(1) == wm.group(1) == wm.group(2) and WIDTH[rd.group(1)] == width):
+            raise CannotRead(f"enum {name}: byte_len {width}, reads {rd.group(1)}, writes {wm.group(1)} as {wm.group(2)}")
+        if sorted(vals) != sorted(set(vals)):
+            raise CannotRead(f"enum {name}: duplicate discriminants")
         out[name] = {"kind": "enum", "width": width, "vals": vals, "arms": arms, "fallback": fallback}
     for m in re.finditer(r"pub struct (\w+) ?: ?(\w+) \{", t):
         name, rep = m.group(1), m.group(2)
@@ -154,6 +163,8 @@ def parse_enums(path):
             raise CannotRead("flags decode of " + name)
         if not re.fullmatch(r"write_" + rep + r"\(stream, self\.bits\(\)\)", fn_body(impl, "encode").strip()):
             raise CannotRead("flags encode of " + name)
+        if WIDTH.get(rep) != width:
+            raise CannotRead(f"flags {name}: byte_len {width} but representation {rep}")
         out[name] = {"kind": "flags", "width": width, "mask": mask, "rep": rep}
     return out
 
